@@ -40,8 +40,17 @@ CHECK = Check(
         "bisect_converges / wetbulb_converges: additionally f continuous on the initial bracket (Mathlib IVT); "
         "wetbulb_converges_water / _ice discharge continuity for the real satEnthalpy when dew point and dry bulb are on the same "
         "side of 0 °C and pa ≠ vp on the bracket; satEnthalpy_strictMono_water: 0 < x1 < x2 ≤ 100 and vp(x2) < pa (crossing unique)",
-        "dewpoint_mono_humidity: 0 < RH1 < RH2 and ln(ea2/0.6108) < 17.27 (the Magnus denominator stays positive; true for "
-        "every ea < 1.9e7 kPa, i.e. for every meteorological input)",
+        "dewpoint_mono_humidity: 0 < RH1 < RH2 and ln(ea2/0.6108) < 17.27 (the Magnus denominator stays positive); "
+        "dewpoint_mono_humidity_range DISCHARGES that hypothesis on the meteorological range: −273.16 < T ≤ 100, 0 < RH1 < RH2 ≤ 100 "
+        "(magnus_denominator_pos: ea ≤ vp(100 °C) = 101.325 kPa, 101.325/0.6108 < 2^17 ≤ e^17.27)",
+        "sample_enthalpy_le_sat (upper half of the bracketing hypothesis of wetbulb_converges*, now derived): RH ≤ 100, vp(T) < pa, "
+        "1.84 T + 2501 > 0; sample_wetbulb_converges_water applies it to the kernel's own sample — the LOWER half "
+        "(satEnthalpy(dew) < hE) stays a hypothesis",
+        "no_zero_divisor (the ℝ content of 'all outputs are finite'): T ∈ [−40, 55], RH ∈ (0, 100], elevation ∈ [0, 10000] ⇒ T + 273.16 > 0, "
+        "the base of the barometric power > 0, 22.4 ≤ pa ≤ 101.3 kPa, pa − vp(x) > 0 for every x ∈ (−273.16, 55] (vp(55) ≤ 18.04 by "
+        "rational enclosures, OW/Proofs/ClimateRange.lean), ea > 0, 17.27 − ln(ea/0.6108) > 0. Not covered: bisection midpoints above the "
+        "dry bulb (only when dew > dry, known finding) and IEEE overflow/underflow",
+        "run_eq_map_sample / run_spec: none (every elevation and series; the run is the per-day computation, no state between days)",
         "dew point ≤ dry bulb is NOT assumed anywhere. dewPoint_le_dryBulb_iff (RH > 0, T > −237.3, positive Magnus denominator): "
         "dew ≤ dry ⇔ GoffGratch(T)·RH/100 ≤ Magnus(T); dewPoint_le_dryBulb_of_magnus: GoffGratch(T) ≤ Magnus(T) ⇒ dew ≤ dry for "
         "all 0 < RH ≤ 100 (instance proved at T = 0); dewPoint_exceeds_dryBulb_example: 40 < dewPoint 40 100 (proved; real code: "
@@ -52,10 +61,15 @@ CHECK = Check(
         "[dew, dry] straddles 0 °C only bisect_bracket_invariant (sign change located within 1e-4 °C, no continuity) applies; "
         "that the enthalpy level is bracketed on entry (satEnthalpy(dew) < hE ≤ satEnthalpy(dry)) is a hypothesis, not derived "
         "from the humidity (it mixes Magnus and Goff-Gratch)",
-        "NOT PROVED: finiteness of the IEEE results (ℝ has no non-finite values) — checked by the oracle on the real code",
-        "RECORDED, not raised: for RH = 100 % and T ≳ 31 °C the Magnus dew point exceeds the dry bulb by ≤ 0.006 °C, so "
-        "deltaT is slightly negative (now a theorem at T = 40: dewPoint_exceeds_dryBulb_example); `between` holds in the "
-        "order-free sense that is proved",
+        "NOT PROVED: finiteness of the IEEE results (ℝ has no non-finite values) — its ℝ content (no division by zero, no log / "
+        "fractional power of a non-positive number on the property's range) is no_zero_divisor; overflow/underflow is checked by the "
+        "oracle on the real code",
+        "the ORDERED reading 'dew point ≤ wet bulb ≤ dry bulb' of the between-clause is FALSE for the code: for RH = 100 % and "
+        "T ≳ 31 °C the Magnus dew point exceeds the dry bulb by ≤ 0.006 °C, the wet bulb is then not below the dry bulb and deltaT ≤ 0 "
+        "(dewPoint_exceeds_dryBulb_example, ordered_reading_counterexample at 40 °C / 100 %; real code: dew 40.00548757635144). Known "
+        "finding KF-C20-dewpoint-above-drybulb (oracle scope ClimateVariables:dewpoint-above-drybulb, slack 1e-9·max(|dry|,1) so that "
+        "dew = dry up to rounding does not fire), printed as KNOWN-FINDING on every run. What is PROVED is the order-free reading "
+        "min(dew,dry) ≤ wet ≤ max(dew,dry) (wetbulb_between), which is also what the text 'lies between' says literally",
     ],
 )
 
@@ -67,7 +81,7 @@ META = dict(
          "searched function (bracket invariant of the bisection, by induction on the iteration count), convergence of the bisection "
          "to a level crossing within 1e-4 °C (sign invariant for any f; intermediate value theorem for continuous f, continuity "
          "discharged for the real enthalpy function on each side of 0 °C), deltaT = dry − wet, dew point increasing in humidity, "
-         "dew ≤ dry characterised exactly (Goff-Gratch·RH ≤ Magnus) with a proved counter-example at 40 °C / 100 %; kernel-checked. The model is tied to the code on every run by comparing the real "
+         "dew ≤ dry characterised exactly (Goff-Gratch·RH ≤ Magnus) with a proved counter-example at 40 °C / 100 % (known finding KF-C20-dewpoint-above-drybulb: the ordered reading dew ≤ wet ≤ dry fails there), dew point increasing in humidity on the whole meteorological range, every divisor positive on the property's range (no_zero_divisor, the ℝ content of finiteness), run = map sample; kernel-checked. The model is tied to the code on every run by comparing the real "
          "ClimateVariables run with the compiled model (rtol 1e-9), and the property's predicates are evaluated on the real "
          "outputs over grids and random samples of T∈[-40,55], RH∈(0,100], elevation∈[0,10000].",
     design_ref="DESIGN.md §6 C20",
